@@ -29,29 +29,40 @@ NAMES = ["out.json", "a#b.json", "q?x.json", "s;p.json", "c:d.json", "with space
          "./rel.json", "%41.json", "a&b=c.json", "trailing#", "x.prov?"]
 
 
-class Boom(Exception):
-    pass
+class Boom(OSError):
+    """injected I/O failure (an OSError, like ENOSPC or EFBIG)"""
 
 
 class FaultyStream:
-    """wraps the temporary stream; raises at the k-th call (writes first, then close)"""
+    """stands in for the buffered temporary stream: writes are kept in a buffer and reach the file when the stream is closed, as
+    with a BufferedWriter holding a small document; raises at the k-th write call, or at close, where the flush fails half way
+    (part of the data is on disk, the rest is lost, and close() reports it)"""
 
     def __init__(self, real, plan):
         self._real = real
         self._plan = plan
+        self._buf = []
 
     def write(self, data):
         self._plan["calls"] += 1
         if self._plan["fault"] is not None and self._plan["calls"] == self._plan["fault"]:
-            raise Boom("write %d" % self._plan["calls"])
-        return self._real.write(data)
+            raise Boom(28, "injected: write %d" % self._plan["calls"])
+        self._buf.append(bytes(data))
+        return len(data)
+
+    def flush(self):
+        pass
 
     def close(self):
         if not self._real.closed:
             self._plan["calls_close"] += 1
+            data = b"".join(self._buf)
+            self._buf = []
             if self._plan["fault"] is not None and self._plan["fault"] == self._plan["n_writes"] + 1 and self._plan["calls_close"] == 1:
+                self._real.write(data[:len(data) // 2])
                 self._real.close()
-                raise Boom("close")
+                raise Boom(28, "injected: flush at close")
+            self._real.write(data)
         return self._real.close()
 
     def __getattr__(self, name):
@@ -87,7 +98,7 @@ def run_once(doc, fmt, workdir, tmpdir, name, present, fault, n_writes):
 
     def move(src, dst, *a, **k):
         if fault is not None and fault == n_writes + 2:
-            raise Boom("move")
+            raise Boom(18, "injected: move")
         return real_move(src, dst, *a, **k)
 
     exc = None
